@@ -91,6 +91,14 @@ namespace ip {
 			return;
 		}
 
+		// a socket has one name. Binding it again would leave the first
+		// endpoint registered to this socket for ever
+		if (m_bound_to != ip::udp::endpoint())
+		{
+			ec = error::invalid_argument;
+			return;
+		}
+
 		ip::udp::endpoint addr = m_io_service.bind_udp_socket(this, ep, ec);
 		if (ec) return;
 		m_bound_to = addr;
